@@ -913,7 +913,38 @@ def _copy(v):
 INCLUDE_FILES = {
     'inc.bare': "systemLog('inc 1')\nfunction incf(x):\n    systemLog('incf ' + x)\n    return x\nendfunction\nsystemLog('inc 2')\n",
     'nested.bare': "systemLog('nested 1')\ninclude 'inc.bare'\nsystemLog('nested 2')\n",
+    # two directories with a same-named library file, each reached by a system include of its neighbour
+    'x/a.bare': "include <lib.bare>\nsystemLog('a done')\n",
+    'y/b.bare': "include <lib.bare>\nsystemLog('b done')\n",
+    'x/lib.bare': "systemLog('lib of x')\n",
+    'y/lib.bare': "systemLog('lib of y')\n",
+    'sys/lib.bare': "systemLog('lib of sys')\n",
 }
+
+INCLUDE_WHOLE = [
+    ('system includes of one name from two directories, no systemPrefix: each resolves against its own includer', "include 'x/a.bare'\ninclude 'y/b.bare'\n", {},
+     ['lib of x', 'a done', 'lib of y', 'b done']),
+    ('the same two files included twice (separate statements): every include statement runs its scripts again, each against its own includer',
+     "include 'x/a.bare'\nsystemLog('mid')\ninclude 'y/b.bare'\ninclude 'x/a.bare'\n", {}, ['lib of x', 'a done', 'mid', 'lib of y', 'b done', 'lib of x', 'a done']),
+    ('with a systemPrefix the system includes of both directories resolve against the prefix', "include 'x/a.bare'\ninclude 'y/b.bare'\n", {'systemPrefix': 'sys/'},
+     ['lib of sys', 'a done', 'lib of sys', 'b done']),
+]
+
+
+def run_include_whole(repo, rule='E9r'):
+    """execute_script evaluated whole (parse_script, the include branch, url_file_relative, nested runs) on programs whose includes reach same-named files in different
+    directories: the log sequence says which file each include statement ran.  -> (n, problems [(desc, message)])"""
+    subj = Subject(repo, rule)
+    problems, n = [], 0
+    for desc, text, options, want in INCLUDE_WHOLE:
+        n += 1
+        try:
+            r = subj.run(text, {}, max_statements=0, options=dict(options))
+        except Unrecognised as exc:
+            raise Unrecognised(exc.rule or rule, f'include program "{desc}": {exc.what}', exc.where)
+        if r[0] != 'value' or r[2] != want:
+            problems.append((desc, f'{desc}: the run ends with {r[0]} {r[1]!r} and the log {r[2]!r}; resolution relative to each including file gives the log {want!r}'[:600]))
+    return n, problems
 
 BUDGET_EXTRA = [
     ('a single include statement', "include 'inc.bare'\n"),
